@@ -21,6 +21,11 @@ const (
 	TypeInterval
 )
 
+// typeInvalid is reported by the XML and JSON readers for an item whose type name
+// is not a TTLV type. It never matches an expected type, so decoding such an item fails
+// with an error.
+const typeInvalid Type = 0xFF
+
 func (ty Type) String() string {
 	if n, ok := typesName[ty]; ok {
 		return n
